@@ -236,6 +236,20 @@ if dcases:
     vlib.classify(rep, props_doc, dmeta, dresults, dcases, drunner, "Checks.C11Check.check_doc (skr_to_xml element structure / response_from_xml vs Model.SkrDoc)")
     drunner.cleanup()
 
+# ------------------------------------------------------------------ 2c. text level: Model.SkrText.skr_text r is the text the real writer emits
+tcases, tmeta = [], []
+for xml, resp, nb in sorted(emitted, key=lambda e: len(e[0]))[: (6 if TIER == "quick" else 40)]:
+    tcases.append(f"({coq_response(resp, with_txt=True, with_data=True, with_pub=False, keep_order=True)}, {txt(xml)})")
+    tmeta.append({"kind": "skr-text", "desc": {"bundles": nb, "xml_bytes": len(xml)}, "spec_ok": True, "spec_msg": "", "key": None})
+    count("skr-text")
+if tcases:
+    trunner = vlib.CaseRun("C11", "text", "From KV Require Import Base.Prelude Base.Exn Model.Data Model.Xml Model.SkrDoc Checks.C11Check.", "text_case", "check_text", shard=2)
+    tresults = trunner.run(tcases) if ok_build else [-1] * len(tcases)
+    props_t = dict(props)
+    props_t["ok"] = True
+    vlib.classify(rep, props_t, tmeta, tresults, tcases, trunner, "Checks.C11Check.check_text (skr_to_xml text vs Model.SkrText.skr_text; premises of skr_file_roundtrip)")
+    trunner.cleanup()
+
 # ------------------------------------------------------------------ 3. every proper prefix fails to load or loads identically
 n_prefix = 0
 loads_identical = 0
